@@ -99,6 +99,9 @@ def guard_sites(model):
 
 
 def run(ctx, model):
+    from . import signatures as _sig
+    _n_sig = _sig.check(ctx, model, "R-SIGNATURE", lambda k: k.startswith('pregex.core.assertions:') or k.split('.')[-1] in ('followed_by', 'preceded_by', 'enclosed_by', 'not_followed_by', 'not_preceded_by', 'not_enclosed_by'))
+    ctx.floor("R-SIGNATURE", _n_sig, 1, "public entry points")
     ctx.explanation = (
         "R-LB-GUARD: the quantifier emitters are walked by the abstract interpreter on one-unit and multi-unit "
         "operands (11 bound settings x laziness x 6 units) to obtain every variable-width and fixed-width suffix shape "
@@ -162,6 +165,22 @@ def run(ctx, model):
                         ctx.violation("R-LB-GUARD", f.relpath, f.short, "<guard order>", f"{meth}: empty assertion reaches the width guard",
                                       f.node.lineno)
 
+    # ---------------- R-LB-GUARD, the MATCH pattern is the empty pattern: the width of the assertion is checked all the same
+    empty_recv = ("Empty:''", "Empty", "", True)
+    for meth in LOOKBEHIND:
+        for label, t, text, fixed in [x for x in shapes if x[0].endswith("Token:'p'") or x[0].endswith("Class:'[pq]'")][:24]:
+            outs, f = B.call_method_ident(model, meth, empty_recv, [(label, t, text, True)])
+            for o in outs:
+                inp = f"{meth} on the empty match pattern, assertion={label} -> {text!r}"
+                ctx.instance("R-LB-GUARD", key=(meth, "empty match", label), sample=f"{inp}: {o.describe()}")
+                raised = o.kind == "raise" and o.exc.name == NFW
+                if not fixed and not raised:
+                    ctx.violation("R-LB-GUARD", f.relpath, f.short, "<guard skipped for an empty match pattern>",
+                                  f"{meth} accepts a variable-width assertion pattern when the match pattern is empty",
+                                  f.node.lineno, inp=inp, detail=o.describe())
+                if fixed and raised:
+                    ctx.violation("R-LB-GUARD", f.relpath, f.short, "<guard>", f"{meth} refuses a fixed-width assertion pattern", f.node.lineno, inp=inp)
+
     # ---------------- R-LB-GUARD, class forms with several assertion patterns: every one of them is checked
     ASR = "pregex.core.assertions"
     var_ops = [("p?", "optional"), ("p{2,3}", "range"), ("p{2,10}", "range with a two-digit bound"), ("p*", "star"), ("[pq]+", "plus on a class")]
@@ -176,6 +195,8 @@ def run(ctx, model):
             recv_ = lambda: make_operand(model, "st", "Other", True)
             arrangements = {
                 "variable only": lambda: [recv_(), mkv()],
+                "empty match pattern (str), variable": lambda: ["", mkv()],
+                "empty match pattern (Pregex), variable, fixed": lambda: [make_operand(model, "", "Empty", True), mkv(), mkf()],
                 "fixed, then variable": lambda: [recv_(), mkf(), mkv()],
                 "variable, then fixed": lambda: [recv_(), mkv(), mkf()],
                 "literal with the same raw text, then variable": lambda vtext=vtext: [recv_(), vtext, mkv()],
